@@ -7,12 +7,16 @@ import (
 	"strings"
 
 	"github.com/cockroachdb/pebble/internal/base"
+	"github.com/cockroachdb/pebble/internal/cache"
+	"github.com/cockroachdb/pebble/internal/sstableinternal"
 	"github.com/cockroachdb/pebble/internal/keyspan"
 	"github.com/cockroachdb/pebble/internal/testkeys"
 	"github.com/cockroachdb/pebble/objstorage"
 	"github.com/cockroachdb/pebble/sstable"
 	"github.com/cockroachdb/pebble/sstable/virtual"
 )
+
+var copyFileNum int
 
 var (
 	resErr   = []int{-1}
@@ -373,7 +377,15 @@ func (x *Exec) copySpan(e Ev) {
 	}
 	in := &objstorage.MemObj{}
 	in.Write(append([]byte(nil), x.Data...))
-	r, err := sstable.NewReader(context.Background(), in, x.Cfg.ReaderOptions())
+	// CopySpan consults the block cache: the reader needs a cache handle
+	blockCache := cache.New(1 << 20)
+	defer blockCache.Unref()
+	ch := blockCache.NewHandle()
+	defer ch.Close()
+	copyFileNum++
+	ro := x.Cfg.ReaderOptions()
+	ro.CacheOpts = sstableinternal.CacheOptions{CacheHandle: ch, FileNum: base.DiskFileNum(copyFileNum)}
+	r, err := sstable.NewReader(context.Background(), in, ro)
 	if err != nil {
 		fail(err.Error())
 		return
